@@ -18,16 +18,19 @@
 
    Every filter and every writing node is modelled with the allocations and writes the Go code performs
    NOW (extension.go, render.go, node.go), including which results alias their input:
-     slice on []interface{}     a window v[start:end] of the input array (cap runs to the end of the
-                                input capacity) -- or a private copy when Gen/FilterWrites.v says the
-                                code copies (fw_slice_window = false)
-     slice on typed slices      reflect.MakeSlice + element copies: fresh
-     sort                       make + copy + sort of the copy: fresh ; an empty []interface{} is returned itself
+     slice on []interface{}     what Gen/FilterWrites.v reads from the code: a private copy (make + copy) since the
+                                repair of filterSlice, a window v[start:end] of the input array before it
+                                (fw_slice_window; the window had its capacity run to the end of the input capacity)
+     slice on typed slices      reflect.MakeSlice + element copies: fresh ; a Go array gives a fresh slice of its element type
+     sort                       make + copy + sort of the copy: fresh (numbers by value, everything else by text) ;
+                                an empty []interface{} is returned itself
      reverse                    make + fill: fresh
-     merge                      make + append: fresh ; on a value that is no slice, array or map: the input itself
+     merge                      lists: make + append, fresh ; maps of any type: a fresh map[string]interface{} ;
+                                on a value that is no slice, array or map: the input itself
      keys, split, range         fresh
      default, raw               the input (or the argument) itself
      first, last, x[i], x.f     the element itself (a nested map or slice is shared, not copied)
+   The text of a pointer is the text of what it points to (textWithoutAddress).
    No proofs in this file. *)
 From Coq Require Import ZifyBool ZifyNat ZifyN.
 From Twig Require Import Base.Bytes Model.Ast Model.Value Gen.FilterWrites.
@@ -160,6 +163,18 @@ Fixpoint hp_sort_by {A} (l : list (bytes * A)) : list (bytes * A) :=
 (* the head is inserted before the first element that is not smaller: equal keys keep their order *)
 Definition hp_stable_sort {A} (l : list (bytes * A)) : list (bytes * A) := hp_sort_by l.
 
+(* stable insertion sort by an integer key (sort.Ints; sort.SliceStable by numberValue on lists of numbers) *)
+Fixpoint hp_insert_z {A} (k : Z) (a : A) (l : list (Z * A)) : list (Z * A) :=
+  match l with
+  | [] => [(k, a)]
+  | (k', a') :: r => if Z.ltb k' k then (k', a') :: hp_insert_z k a r else (k, a) :: l
+  end.
+Fixpoint hp_sort_z {A} (l : list (Z * A)) : list (Z * A) :=
+  match l with
+  | [] => []
+  | (k, a) :: r => hp_insert_z k a (hp_sort_z r)
+  end.
+
 Definition hp_ltag_eqb (a b : ltag) : bool :=
   match a, b with LAny, LAny | LStrings, LStrings | LInts, LInts | LArray, LArray => true | _, _ => false end.
 Definition hp_mtag_eqb (a b : mtag) : bool :=
@@ -233,7 +248,7 @@ Fixpoint hp_opt_all {A} (l : list (option A)) : option (list A) :=
   | None :: _ => None
   end.
 
-(* fmt %v of a value at a nesting depth (fmt/print.go printValue): pointers are followed only at depth 0 *)
+(* toString of a value (top = true) and fmt %v of a value nested in a collection (top = false, fmt/print.go printValue) *)
 Fixpoint hp_fmtv (fu : nat) (st : hpstate) (top : bool) (v : hpval) : option bytes :=
   match fu with
   | O => None
@@ -269,14 +284,14 @@ Fixpoint hp_fmtv (fu : nat) (st : hpstate) (top : bool) (v : hpval) : option byt
         | None => None
         end
     | HvPtr p =>
+        (* textWithoutAddress: a pointer prints what it points to (toString of the pointee); a pointer nested in a
+           collection is printed by fmt as an address: outside the model *)
         if top then
           match hp_get st p with
-          | Some (HoCell (HvStruct ty fs)) => match sub (HvStruct ty fs) with Some s => Some (x26 :: s) | None => None end
-          | Some (HoCell (HvSlice t a o l c)) => match sub (HvSlice t a o l c) with Some s => Some (x26 :: s) | None => None end
-          | Some (HoCell (HvMap t m)) => match sub (HvMap t m) with Some s => Some (x26 :: s) | None => None end
+          | Some (HoCell c) => hp_fmtv fu' st true c
           | _ => None
           end
-        else None      (* an address *)
+        else None
     end
   end.
 
@@ -318,12 +333,12 @@ Definition hp_truthy (st : hpstate) (v : hpval) : option bool :=
   | HvPtr _ => Some true
   end.
 
-(* isEmptyValue; the integer zero is left out of the model (its treatment differs between int and int64 operands) *)
+(* isEmptyValue: nil, the empty string, false and empty collections; a number is never empty *)
 Definition hp_is_empty (st : hpstate) (v : hpval) : option bool :=
   match v with
   | HvNull => Some true
   | HvBool b => Some (negb b)
-  | HvInt z => if Z.eqb z 0 then None else Some false
+  | HvInt _ => Some false
   | HvStr s => Some (match s with [] => true | _ => false end)
   | HvSlice _ _ _ len _ => Some (Nat.eqb len 0)
   | HvArr _ xs => Some (match xs with [] => true | _ => false end)
@@ -453,7 +468,7 @@ Definition hp_f_last (v : hpval) : hpM hpval :=
     | _ => Err EOther
     end).
 
-(* filterReverse: make + fill for every slice type; Go arrays panic in reflect.MakeSlice (left to C05/C19) *)
+(* filterReverse: make + fill for every slice type; a Go array gives a slice of its element type *)
 Definition hp_f_reverse (v : hpval) : hpM hpval :=
   match v with
   | HvNull => hp_ret HvNull
@@ -461,7 +476,7 @@ Definition hp_f_reverse (v : hpval) : hpM hpval :=
   | HvSlice t arr off len _ =>
       hdo xs <- hp_reado (fun st => hp_window st arr off len);
       hp_new_slice t (rev xs)
-  | HvArr _ _ => hp_unmodelled
+  | HvArr t xs => hp_new_slice t (rev xs)
   | _ => hp_fail EOther
   end.
 
@@ -512,7 +527,11 @@ Definition hp_f_slice (window : bool) (v : hpval) (args : list hpval) : hpM hpva
                 hdo xs <- hp_reado (fun st => hp_window st arr (off + a) (b - a));
                 hp_new_slice t xs                                (* reflect.MakeSlice + Set of every element *)
             end
-        | HvArr _ _ => hp_unmodelled
+        | HvArr t xs =>
+            match hp_slice_bounds (length xs) start olen with
+            | None => hp_lit_slice t []
+            | Some (a, b) => hp_new_slice t (firstn (b - a) (skipn a xs))
+            end
         | _ => hp_fail EOther
         end
       | _, _ => hp_unmodelled
@@ -524,17 +543,33 @@ Definition hp_f_slice (window : bool) (v : hpval) (args : list hpval) : hpM hpva
 Definition hp_sort_keys (st : hpstate) (xs : list hpval) : option (list (bytes * hpval)) :=
   hp_opt_all (map (fun x => match hp_tostring st x with Some s => Some (s, x) | None => None end) xs).
 
-(* filterSort. Typed slices: make, copy, sort, then a second make for the []interface{} that is returned. *)
+(* allNumbers / numberValue: a list whose elements are all integers is ordered by value *)
+Fixpoint hp_num_keys (xs : list hpval) : option (list (Z * hpval)) :=
+  match xs with
+  | [] => Some []
+  | HvInt z :: r => match hp_num_keys r with Some l => Some ((z, HvInt z) :: l) | None => None end
+  | _ :: _ => None
+  end.
+
+(* the order filterSort gives: by value for a list of numbers, by text otherwise (sort.Slice by text is modelled as stable) *)
+Definition hp_sorted (st : hpstate) (xs : list hpval) : option (list hpval) :=
+  match hp_num_keys xs with
+  | Some l => Some (map snd (hp_sort_z l))
+  | None => match hp_sort_keys st xs with Some l => Some (map snd (hp_stable_sort l)) | None => None end
+  end.
+
+(* filterSort. []string and []int: make, copy, sort, then a second make for the []interface{} that is returned.
+   []interface{}: make, copy, sort. Go arrays (reflection): a new slice of the element type, filled, sorted, returned as it is. *)
 Definition hp_f_sort (v : hpval) : hpM hpval :=
   match v with
   | HvNull => hp_ret HvNull
   | HvSlice LAny _ _ O _ => hp_ret v                                   (* len(v) == 0: return v *)
   | HvSlice t arr off len _ =>
       hdo xs <- hp_reado (fun st => hp_window st arr off len);
-      hdo sorted <- hp_reado (fun st => match hp_sort_keys st xs with Some l => Some (map snd (hp_stable_sort l)) | None => None end);
+      hdo sorted <- hp_reado (fun st => hp_sorted st xs);
       match t with
       | LAny =>
-          (* result := make(len); copy(result, v); sort.Slice(result) *)
+          (* result := make(len); copy(result, v); sort of result *)
           hdo n <- hp_alloc_fill (HoArr (repeat HvNull len)) [HoArr xs; HoArr sorted];
           hp_ret (HvSlice LAny (HlNew n) 0 len len)
       | LStrings | LInts =>
@@ -542,7 +577,10 @@ Definition hp_f_sort (v : hpval) : hpM hpval :=
           hp_new_slice LAny sorted
       | LArray => hp_unmodelled
       end
-  | HvArr _ _ => hp_unmodelled
+  | HvArr t xs =>
+      hdo sorted <- hp_reado (fun st => hp_sorted st xs);
+      hdo n <- hp_alloc_fill (HoArr (repeat (hp_zero_of t) (length xs))) [HoArr xs; HoArr sorted];
+      hp_ret (HvSlice t (HlNew n) 0 (length xs) (length xs))
   | _ => hp_fail EOther
   end.
 
@@ -585,7 +623,17 @@ Fixpoint hp_merge_args (st : hpstate) (args : list hpval) : option (list hpval) 
       end
   end.
 
-(* generic-map arguments of a map merge; a typed map among them is left out of the model *)
+(* the entries of a map under their keys as text (mapKeyString) *)
+Fixpoint hp_text_keys (kvs : list (hpval * hpval)) : option (list (hpval * hpval)) :=
+  match kvs with
+  | [] => Some []
+  | (k, v) :: r => match hp_key_string k, hp_text_keys r with
+                   | Some s, Some l => Some ((HvStr s, v) :: l)
+                   | _, _ => None
+                   end
+  end.
+
+(* the entries the map arguments of a merge contribute, in argument order; arguments that are no maps are ignored *)
 Fixpoint hp_merge_map_args (st : hpstate) (args : list hpval) : option (list (hpval * hpval)) :=
   match args with
   | [] => Some []
@@ -594,14 +642,16 @@ Fixpoint hp_merge_map_args (st : hpstate) (args : list hpval) : option (list (hp
       | None => None
       | Some rest =>
           match a with
-          | HvMap MAny m => match hp_map_entries st m with Some kvs => Some (kvs ++ rest) | None => None end
-          | HvMap _ _ => None
+          | HvMap _ m => match hp_map_entries st m with
+                         | Some kvs => match hp_text_keys kvs with Some l => Some (l ++ rest) | None => None end
+                         | None => None end
           | _ => Some rest
           end
       end
   end.
 
-(* filterMerge: make + append for lists, MakeMap + SetMapIndex for maps, anything else is returned itself *)
+(* filterMerge: make + append for lists; for maps of any type a new map[string]interface{} with the keys as text;
+   anything else is returned itself *)
 Definition hp_f_merge (v : hpval) (args : list hpval) : hpM hpval :=
   match v with
   | HvSlice _ _ _ _ _ | HvArr _ _ =>
@@ -609,12 +659,12 @@ Definition hp_f_merge (v : hpval) (args : list hpval) : hpM hpval :=
                                     | Some xs, Some more => Some (xs ++ more)
                                     | _, _ => None end);
       hp_lit_slice LAny xs
-  | HvMap MAny m =>
+  | HvMap _ m =>
       hdo kvs <- hp_reado (fun st => match hp_map_entries st m, hp_merge_map_args st args with
-                                     | Some kvs, Some more => Some (hp_map_set_all kvs more)
+                                     | Some kvs, Some more =>
+                                         match hp_text_keys kvs with Some base => Some (hp_map_set_all [] (base ++ more)) | None => None end
                                      | _, _ => None end);
       hp_new_map MAny kvs
-  | HvMap _ _ => hp_unmodelled
   | _ => hp_ret v                                                        (* return value, nil *)
   end.
 
@@ -694,9 +744,10 @@ Definition hp_fn_merge (args : list hpval) : hpM hpval :=
       | HvSlice _ _ _ _ _ | HvArr _ _ =>
           hdo xs <- hp_reado (fun st => hp_fn_merge_args st args);
           hp_lit_slice LAny xs
-      | HvMap MAny m =>
+      | HvMap _ m =>
           hdo kvs <- hp_reado (fun st => match hp_map_entries st m, hp_merge_map_args st rest with
-                                         | Some kvs, Some more => Some (hp_map_set_all kvs more)
+                                         | Some kvs, Some more =>
+                                             match hp_text_keys kvs with Some b0 => Some (hp_map_set_all [] (b0 ++ more)) | None => None end
                                          | _, _ => None end);
           hp_new_map MAny kvs
       | _ => hp_unmodelled
@@ -904,7 +955,10 @@ Definition hp_get_attr (v : hpval) (a : bytes) : hpM hpval :=
     | HvMap MAny m => match hp_map_entries st m with
                       | Some kvs => Ok (match hp_map_find kvs (HvStr a) with Some x => x | None => HvNull end)
                       | None => Unmodelled end
-    | HvMap _ _ => Unmodelled                       (* typed maps and the dot: see C20 *)
+    | HvMap MIntStr _ => Ok HvNull                  (* getItem with a string that converts to no int key *)
+    | HvMap _ m => match hp_map_entries st m with   (* maps of any other type: the attribute is the key *)
+                   | Some kvs => Ok (match hp_map_find kvs (HvStr a) with Some x => x | None => HvNull end)
+                   | None => Unmodelled end
     | HvStruct _ fs => Ok (match assoc_bytes fs a with Some x => x | None => HvNull end)
     | HvPtr p => match hp_get st p with
                  | Some (HoCell (HvStruct _ fs)) => Ok (match assoc_bytes fs a with Some x => x | None => HvNull end)
